@@ -8,6 +8,9 @@
 //! cachelito-replay --macro-search [--prop Cxx] [--seed N] [--out FILE]      exit 0 nothing found / 1 witness / 2 harness
 //! cachelito-replay --macro-scenario <name> [--seed N] [--selftest-oracle]    re-run one scenario
 //! ```
+//! `distinct_tuples_<flavour>` also covers Vec, nested Vec, Option, tuple, char, f64, `&str`, a destructuring
+//! pattern, arity 1 and 5 and a one-argument method (spec: /verif/notes/macro_history_spec.md, part A).
+//!
 //! Isolation between scenarios: global / async caches are emptied through `invalidate_with(name, |_| true)`
 //! (registered by the expansion on first use), thread-scope functions are driven on a fresh thread, and the
 //! instrumentation slot of every function a scenario touches is reset first. No scenario depends on another
@@ -29,7 +32,7 @@ const HANG_SECS: u64 = 5;
 // ------------------------------------------------------------------------------------------------
 // instrumentation: one slot per decorated function, keyed by the function (= cache) name
 // ------------------------------------------------------------------------------------------------
-mod instr {
+pub(crate) mod instr {
     use std::collections::{BTreeMap, BTreeSet, VecDeque};
     use std::fmt::Debug;
     use std::sync::Mutex;
@@ -128,14 +131,14 @@ fn tick() {
 // ------------------------------------------------------------------------------------------------
 // a tiny executor: no-op waker, manual polling
 // ------------------------------------------------------------------------------------------------
-fn poll_once<F: Future + ?Sized>(f: Pin<&mut F>) -> Poll<F::Output> {
+pub(crate) fn poll_once<F: Future + ?Sized>(f: Pin<&mut F>) -> Poll<F::Output> {
     let mut cx = Context::from_waker(Waker::noop());
     f.poll(&mut cx)
 }
 
 /// Polls to completion. The futures driven here never wait for anything but the C20 gate, so a future that
 /// is still pending after many polls is a mistake of the harness (gate left closed), not of the library.
-fn block_on<F: Future>(f: F) -> F::Output {
+pub(crate) fn block_on<F: Future>(f: F) -> F::Output {
     let mut f = std::pin::pin!(f);
     for _ in 0..10_000 {
         if let Poll::Ready(v) = poll_once(f.as_mut()) {
@@ -509,6 +512,216 @@ macro_rules! f {
     };
 }
 
+// ------------------------------------------------------------------------------------------------
+// more key shapes for distinct_tuples (C02 / C01): Vec, nested containers, Option, tuples, chars, floats,
+// arity 1 and 5, a destructuring pattern, a one-argument method, &str. One definition per flavour.
+// The twins take every argument by reference and use an encoding that has nothing in common with the
+// Debug text the keys are made of (length prefixes, bit patterns).
+// ------------------------------------------------------------------------------------------------
+fn enc_u32s(v: &[u32]) -> String {
+    format!("{}[{}]", v.len(), v.iter().map(|x| x.to_string()).collect::<Vec<_>>().join(","))
+}
+fn enc_str(s: &str) -> String {
+    format!("{}:{};", s.len(), s)
+}
+fn enc_opt(o: &Option<String>) -> String {
+    match o {
+        None => "n".to_string(),
+        Some(x) => format!("s{}", enc_str(x)),
+    }
+}
+fn tw_vecs2(a: &Vec<u32>, b: &Vec<u32>) -> String {
+    format!("vecs2 {} {}", enc_u32s(a), enc_u32s(b))
+}
+fn tw_vstr(a: &Vec<String>) -> String {
+    format!("vstr {}<{}>", a.len(), a.iter().map(|x| enc_str(x)).collect::<String>())
+}
+fn tw_nested(a: &Vec<Vec<u32>>, b: &Option<u32>) -> String {
+    let inner: String = a.iter().map(|v| enc_u32s(v)).collect();
+    let opt = match b {
+        None => "n".to_string(),
+        Some(x) => format!("s{x}"),
+    };
+    format!("nested {}<{inner}> {opt}", a.len())
+}
+fn tw_opt2(a: &Option<String>, b: &Option<String>) -> String {
+    format!("opt2 {} {}", enc_opt(a), enc_opt(b))
+}
+fn tw_tup(a: &(u32, String), b: &u32) -> String {
+    format!("tup {} {} {}", a.0, enc_str(&a.1), b)
+}
+fn tw_chars(a: &char, b: &char) -> u64 {
+    ((*a as u64) << 32) | *b as u64
+}
+fn tw_mixed5(a: &i64, b: &bool, c: &char, d: &String, e: &Vec<u32>) -> String {
+    format!("mixed5 {} {} {} {} {}", a, *b as u8, *c as u32, enc_str(d), enc_u32s(e))
+}
+fn tw_floats(a: &f64, b: &f64) -> String {
+    format!("floats {:016x} {:016x}", a.to_bits(), b.to_bits())
+}
+fn tw_one(a: &u32) -> u64 {
+    *a as u64 * 3 + 1
+}
+fn tw_destructured(x: u32, y: u32, c: u32) -> u64 {
+    x as u64 * 1_000_003 * 1_000_003 + y as u64 * 1_000_003 + c as u64
+}
+fn tw_m1(id: u32, a: u32) -> u64 {
+    ((id as u64) << 32) | a as u64
+}
+
+/// The same decorated function in the three flavours; the body bumps the run counter of its own name.
+macro_rules! shape_fns {
+    ($g:ident, $t:ident, $a:ident, ($($p:ident : $ty:ty),+) -> $ret:ty, $twin:ident) => {
+        #[cache]
+        fn $g($($p: $ty),+) -> $ret {
+            instr::ran(stringify!($g));
+            $twin($(&$p),+)
+        }
+        #[cache(scope = "thread")]
+        fn $t($($p: $ty),+) -> $ret {
+            instr::ran(stringify!($t));
+            $twin($(&$p),+)
+        }
+        #[cache_async]
+        async fn $a($($p: $ty),+) -> $ret {
+            instr::ran(stringify!($a));
+            $twin($(&$p),+)
+        }
+    };
+}
+/// `sel(kind)`: name and synchronous entry point (arguments as one tuple) of the flavour's function.
+macro_rules! shape_sel {
+    ($sel:ident, $g:ident, $t:ident, $a:ident, ($($p:ident : $ty:ty),+) -> $ret:ty) => {
+        fn $sel(kind: Kind) -> F<fn(&($($ty,)+)) -> $ret> {
+            match kind {
+                Kind::Global => F {
+                    name: stringify!($g),
+                    call: |t| {
+                        let ($($p,)+) = t.clone();
+                        tick();
+                        $g($($p),+)
+                    },
+                },
+                Kind::Thread => F {
+                    name: stringify!($t),
+                    call: |t| {
+                        let ($($p,)+) = t.clone();
+                        tick();
+                        $t($($p),+)
+                    },
+                },
+                Kind::Async => F {
+                    name: stringify!($a),
+                    call: |t| {
+                        let ($($p,)+) = t.clone();
+                        tick();
+                        block_on($a($($p),+))
+                    },
+                },
+            }
+        }
+    };
+}
+macro_rules! shape {
+    ($sel:ident, $g:ident, $t:ident, $a:ident, ($($p:ident : $ty:ty),+) -> $ret:ty, $twin:ident) => {
+        shape_fns!($g, $t, $a, ($($p: $ty),+) -> $ret, $twin);
+        shape_sel!($sel, $g, $t, $a, ($($p: $ty),+) -> $ret);
+    };
+}
+shape!(sel_vecs2, g_vecs2, t_vecs2, a_vecs2, (a: Vec<u32>, b: Vec<u32>) -> String, tw_vecs2);
+shape!(sel_vstr, g_vstr, t_vstr, a_vstr, (a: Vec<String>) -> String, tw_vstr);
+shape!(sel_nested, g_nested, t_nested, a_nested, (a: Vec<Vec<u32>>, b: Option<u32>) -> String, tw_nested);
+shape!(sel_opt2, g_opt2, t_opt2, a_opt2, (a: Option<String>, b: Option<String>) -> String, tw_opt2);
+shape!(sel_tup, g_tup, t_tup, a_tup, (a: (u32, String), b: u32) -> String, tw_tup);
+shape!(sel_chars, g_chars, t_chars, a_chars, (a: char, b: char) -> u64, tw_chars);
+shape!(sel_mixed5, g_mixed5, t_mixed5, a_mixed5, (a: i64, b: bool, c: char, d: String, e: Vec<u32>) -> String, tw_mixed5);
+shape!(sel_one, g_one, t_one, a_one, (a: u32) -> u64, tw_one);
+// floats: the tuples of the scenario are bit patterns (0.0 == -0.0 as f64 but they are different arguments)
+shape_fns!(g_floats, t_floats, a_floats, (a: f64, b: f64) -> String, tw_floats);
+fn sel_floats(kind: Kind) -> F<fn(&(u64, u64)) -> String> {
+    match kind {
+        Kind::Global => f!("g_floats", |t| g_floats(f64::from_bits(t.0), f64::from_bits(t.1))),
+        Kind::Thread => f!("t_floats", |t| t_floats(f64::from_bits(t.0), f64::from_bits(t.1))),
+        Kind::Async => f!("a_floats", |t| block_on(a_floats(f64::from_bits(t.0), f64::from_bits(t.1)))),
+    }
+}
+
+// a destructuring pattern in argument position
+#[cache]
+fn g_destructured((x, y): (u32, u32), c: u32) -> u64 {
+    instr::ran("g_destructured");
+    tw_destructured(x, y, c)
+}
+#[cache(scope = "thread")]
+fn t_destructured((x, y): (u32, u32), c: u32) -> u64 {
+    instr::ran("t_destructured");
+    tw_destructured(x, y, c)
+}
+#[cache_async]
+async fn a_destructured((x, y): (u32, u32), c: u32) -> u64 {
+    instr::ran("a_destructured");
+    tw_destructured(x, y, c)
+}
+fn sel_destructured(kind: Kind) -> F<fn(&(u32, u32, u32)) -> u64> {
+    match kind {
+        Kind::Global => f!("g_destructured", |t| g_destructured((t.0, t.1), t.2)),
+        Kind::Thread => f!("t_destructured", |t| t_destructured((t.0, t.1), t.2)),
+        Kind::Async => f!("a_destructured", |t| block_on(a_destructured((t.0, t.1), t.2))),
+    }
+}
+
+// borrowed string arguments
+#[cache]
+fn g_strs_ref(a: &str, b: &str) -> String {
+    instr::ran("g_strs_ref");
+    twin_strs(a, b)
+}
+#[cache(scope = "thread")]
+fn t_strs_ref(a: &str, b: &str) -> String {
+    instr::ran("t_strs_ref");
+    twin_strs(a, b)
+}
+#[cache_async]
+async fn a_strs_ref(a: &str, b: &str) -> String {
+    instr::ran("a_strs_ref");
+    twin_strs(a, b)
+}
+fn sel_strs_ref(kind: Kind) -> F<fn(&(String, String)) -> String> {
+    match kind {
+        Kind::Global => f!("g_strs_ref", |t| g_strs_ref(&t.0, &t.1)),
+        Kind::Thread => f!("t_strs_ref", |t| t_strs_ref(&t.0, &t.1)),
+        Kind::Async => f!("a_strs_ref", |t| block_on(a_strs_ref(&t.0, &t.1))),
+    }
+}
+
+// a method with exactly one argument besides the receiver
+impl Recv {
+    #[cache]
+    fn g_m1(&self, a: u32) -> u64 {
+        instr::ran("g_m1");
+        tw_m1(self.id, a)
+    }
+    #[cache(scope = "thread")]
+    fn t_m1(&self, a: u32) -> u64 {
+        instr::ran("t_m1");
+        tw_m1(self.id, a)
+    }
+    #[cache_async]
+    async fn a_m1(&self, a: u32) -> u64 {
+        instr::ran("a_m1");
+        tw_m1(self.id, a)
+    }
+}
+/// (receiver id, argument)
+fn sel_m1(kind: Kind) -> F<fn(&(u32, u32)) -> u64> {
+    match kind {
+        Kind::Global => f!("g_m1", |t| Recv { id: t.0 }.g_m1(t.1)),
+        Kind::Thread => f!("t_m1", |t| Recv { id: t.0 }.t_m1(t.1)),
+        Kind::Async => f!("a_m1", |t| block_on(Recv { id: t.0 }.a_m1(t.1))),
+    }
+}
+
+
 fn flavour(kind: Kind) -> Fl {
     match kind {
         Kind::Global => Fl {
@@ -684,9 +897,9 @@ fn start_watchdog() {
     });
 }
 
-struct Rng(u64);
+pub(crate) struct Rng(u64);
 impl Rng {
-    fn new(seed: u64) -> Rng {
+    pub(crate) fn new(seed: u64) -> Rng {
         let mut r = Rng(seed.wrapping_mul(0x9E37_79B9_7F4A_7C15) ^ 0x2545_F491_4F6C_DD1D);
         if r.0 == 0 {
             r.0 = 0x9E37_79B9_7F4A_7C15;
@@ -696,7 +909,7 @@ impl Rng {
         }
         r
     }
-    fn next(&mut self) -> u64 {
+    pub(crate) fn next(&mut self) -> u64 {
         let mut x = self.0;
         x ^= x >> 12;
         x ^= x << 25;
@@ -704,10 +917,10 @@ impl Rng {
         self.0 = x;
         x.wrapping_mul(0x2545_F491_4F6C_DD1D)
     }
-    fn below(&mut self, n: usize) -> usize {
+    pub(crate) fn below(&mut self, n: usize) -> usize {
         ((self.next() >> 33) % n as u64) as usize
     }
-    fn shuffle<T>(&mut self, v: &mut [T]) {
+    pub(crate) fn shuffle<T>(&mut self, v: &mut [T]) {
         for i in (1..v.len()).rev() {
             let j = self.below(i + 1);
             v.swap(i, j);
@@ -720,13 +933,13 @@ impl Rng {
 // ------------------------------------------------------------------------------------------------
 /// Empties the global / async cache registered under `name`. Before the first use of the function
 /// nothing is registered (and nothing is cached): `false` is fine then.
-fn clear_cache(name: &str) {
+pub(crate) fn clear_cache(name: &str) {
     cachelito_core::invalidate_with(name, |_| true);
 }
 
 /// Lists the keys of a global / async cache through the predicate of `invalidate_with` (removes nothing).
 /// `None`: no cache registered under that name.
-fn list_keys(name: &str) -> Option<BTreeSet<String>> {
+pub(crate) fn list_keys(name: &str) -> Option<BTreeSet<String>> {
     let keys = Mutex::new(BTreeSet::new());
     let found = cachelito_core::invalidate_with(name, |k| {
         keys.lock().unwrap_or_else(|e| e.into_inner()).insert(k.to_string());
@@ -764,7 +977,7 @@ fn fresh<R: Send>(kind: Kind, names: &[&'static str], f: impl FnOnce() -> R + Se
 // C02 / C01 distinct_tuples
 // ------------------------------------------------------------------------------------------------
 /// For every ordered pair of different tuples: f(t1) then f(t2) on empty caches. The body must run for
-/// both and both results must equal the twin.
+/// both and both results must equal the twin; f(t1) again is then served (no execution) with the twin's value.
 fn check_pairs<T, V>(
     ctx: &Ctx,
     kind: Kind,
@@ -823,6 +1036,26 @@ where
                     return fail(
                         "C01",
                         format!("{fname}{t1:?} then {fname}{t2:?}: the second call returned {r2:?}, the uncached twin gives {e2:?}"),
+                    );
+                }
+                // the first tuple again: its own entry is still there and still holds its own value
+                let r3 = call(t1);
+                let n3 = instr::runs(fname);
+                if n3 != 2 {
+                    return fail(
+                        "C02",
+                        format!(
+                            "{fname}{t1:?}, {fname}{t2:?}, then {fname}{t1:?} again: the body ran {n3} times in total, expected 2 \
+                             (the entry of the first tuple did not survive the store of the second; the third call returned {r3:?})"
+                        ),
+                    );
+                }
+                if r3 != e1 {
+                    return fail(
+                        "C01",
+                        format!(
+                            "{fname}{t1:?}, {fname}{t2:?}, then {fname}{t1:?} again: served {r3:?}, the uncached twin gives {e1:?}"
+                        ),
                     );
                 }
                 Ok(())
@@ -928,6 +1161,8 @@ fn distinct_tuples(fl: &Fl, ctx: &Ctx) -> Result<(), Fail> {
     let f = fl.m0.call;
     check_pairs(ctx, kind, fl.m0.name, &recvs, &|id| f(&Recv { id: *id }), &|id| twin_m0(*id))?;
 
+    distinct_shapes(kind, ctx)?;
+
     // no arguments: two calls, one execution
     let name = fl.noargs.name;
     let f = fl.noargs.call;
@@ -947,6 +1182,131 @@ fn distinct_tuples(fl: &Fl, ctx: &Ctx) -> Result<(), Fail> {
         }
         Ok(())
     })
+}
+
+/// Containers, options, tuples, chars, floats, arity 1 and 5, a destructuring pattern, a one-argument method
+/// and `&str` arguments: adversarial pairs whose Debug texts differ only in where the boundaries fall.
+/// Every list is checked for ALL ordered pairs (a superset of the pairs of the spec).
+fn distinct_shapes(kind: Kind, ctx: &Ctx) -> Result<(), Fail> {
+    fn run<T, V>(ctx: &Ctx, kind: Kind, f: F<fn(&T) -> V>, tuples: Vec<T>, twin: &(dyn Fn(&T) -> V + Sync)) -> Result<(), Fail>
+    where
+        T: Debug + PartialEq + Sync,
+        V: Debug + PartialEq,
+    {
+        let call = f.call;
+        check_pairs(ctx, kind, f.name, &tuples, &move |t| call(t), twin)
+    }
+    let vs = |v: &[&str]| -> Vec<String> { v.iter().map(|x| s(x)).collect() };
+    let os = |o: Option<&str>| o.map(s);
+
+    let vecs2: Vec<(Vec<u32>, Vec<u32>)> = vec![
+        (vec![], vec![7]),
+        (vec![7], vec![]),
+        (vec![1, 2], vec![3]),
+        (vec![1], vec![2, 3]),
+        (vec![], vec![]),
+        (vec![0], vec![]),
+        (vec![12], vec![3]),
+        (vec![1], vec![23]),
+    ];
+    run(ctx, kind, sel_vecs2(kind), vecs2, &|t| tw_vecs2(&t.0, &t.1))?;
+
+    let vstr: Vec<(Vec<String>,)> = vec![
+        (vs(&["a, b"]),),
+        (vs(&["a", "b"]),),
+        (vs(&["a\", \"b"]),),
+        (vs(&[]),),
+        (vs(&[""]),),
+        (vs(&["|"]),),
+        (vs(&["", ""]),),
+        (vs(&["\"|\""]),),
+    ];
+    run(ctx, kind, sel_vstr(kind), vstr, &|t| tw_vstr(&t.0))?;
+
+    let nested: Vec<(Vec<Vec<u32>>, Option<u32>)> = vec![
+        (vec![vec![]], None),
+        (vec![], None),
+        (vec![vec![1], vec![2]], None),
+        (vec![vec![1, 2]], None),
+        (vec![], Some(0)),
+        (vec![vec![], vec![]], None),
+    ];
+    run(ctx, kind, sel_nested(kind), nested, &|t| tw_nested(&t.0, &t.1))?;
+
+    let opt2: Vec<(Option<String>, Option<String>)> = vec![
+        (None, os(Some("None"))),
+        (os(Some("None")), None),
+        (os(Some("")), None),
+        (None, None),
+        (os(Some("Some(\"x\")")), None),
+        (os(Some("x")), None),
+        (os(Some("None|None")), None),
+    ];
+    run(ctx, kind, sel_opt2(kind), opt2, &|t| tw_opt2(&t.0, &t.1))?;
+
+    let tup: Vec<((u32, String), u32)> = vec![
+        ((1, s("2")), 3),
+        ((1, s("2, 3")), 3),
+        ((1, s("2\")|(3, \"")), 3),
+        ((12, s("")), 3),
+        ((1, s("2")), 33),
+        ((1, s("a|b")), 2),
+        ((1, s("a")), 2),
+        ((1, s("a\")|2")), 2),
+    ];
+    run(ctx, kind, sel_tup(kind), tup, &|t| tw_tup(&t.0, &t.1))?;
+
+    let chars: Vec<(char, char)> = vec![('|', 'a'), ('a', '|'), ('\'', 'a'), ('a', '\''), ('\\', '|'), ('|', '\\'), ('\'', '|'), ('|', '\'')];
+    run(ctx, kind, sel_chars(kind), chars, &|t| tw_chars(&t.0, &t.1))?;
+
+    let mixed5: Vec<(i64, bool, char, String, Vec<u32>)> = vec![
+        (-1, true, 'x', s(""), vec![]),
+        (1, true, 'x', s(""), vec![]),
+        (1, true, '|', s("|"), vec![1]),
+        (1, true, '|', s(""), vec![1]),
+        // differ only in the last position
+        (1, true, 'x', s(""), vec![1]),
+        (1, true, 'x', s(""), vec![2]),
+        // differ only in the first position
+        (2, true, 'x', s(""), vec![]),
+        (1, false, 'x', s(""), vec![]),
+        (1, true, 'x', s("\"|[]"), vec![]),
+    ];
+    run(ctx, kind, sel_mixed5(kind), mixed5, &|t| tw_mixed5(&t.0, &t.1, &t.2, &t.3, &t.4))?;
+
+    let floats: Vec<(u64, u64)> = [(1.0f64, 2.5f64), (1.0, 2.25), (0.0, -0.0), (-0.0, 0.0), (0.0, 0.0), (1e300, 1.0), (1.0, 1e300), (12.0, 3.0), (1.0, 23.0)]
+        .iter()
+        .map(|(a, b)| (a.to_bits(), b.to_bits()))
+        .collect();
+    run(ctx, kind, sel_floats(kind), floats, &|t| tw_floats(&f64::from_bits(t.0), &f64::from_bits(t.1)))?;
+
+    // ((x, y), c)
+    let destructured: Vec<(u32, u32, u32)> = vec![(1, 2, 3), (1, 3, 2), (2, 1, 3), (0, 0, 1), (0, 1, 0), (12, 3, 4), (1, 23, 4)];
+    run(ctx, kind, sel_destructured(kind), destructured, &|t| tw_destructured(t.0, t.1, t.2))?;
+
+    let one: Vec<(u32,)> = vec![(1,), (12,), (0,), (u32::MAX,)];
+    run(ctx, kind, sel_one(kind), one, &|t| tw_one(&t.0))?;
+
+    // (receiver id, argument): same argument on different receivers, same receiver with different arguments
+    let m1: Vec<(u32, u32)> = vec![(1, 23), (12, 3), (1, 3), (12, 23), (123, 0), (1, 230)];
+    run(ctx, kind, sel_m1(kind), m1, &|t| tw_m1(t.0, t.1))?;
+
+    let strs_ref: Vec<(String, String)> = [
+        ("a|b", "c"),
+        ("a", "b|c"),
+        ("a\"|\"b", "c"),
+        ("a", "b\"|\"c"),
+        ("", ""),
+        ("", "|"),
+        ("|", ""),
+        ("\\", "\\"),
+        ("\"", "\""),
+        ("\\\"|\\\"", ""),
+    ]
+    .iter()
+    .map(|(a, b)| (s(a), s(b)))
+    .collect();
+    run(ctx, kind, sel_strs_ref(kind), strs_ref, &|t| twin_strs(&t.0, &t.1))
 }
 
 // ------------------------------------------------------------------------------------------------
@@ -2028,7 +2388,7 @@ fn scenarios() -> Vec<Scenario> {
     v
 }
 
-fn panic_text(p: &(dyn std::any::Any + Send)) -> String {
+pub(crate) fn panic_text(p: &(dyn std::any::Any + Send)) -> String {
     if let Some(s) = p.downcast_ref::<&str>() {
         s.to_string()
     } else if let Some(s) = p.downcast_ref::<String>() {
